@@ -275,7 +275,13 @@ def dropSub (needle : List Nat) : Nat → List Nat → List Nat
 /-- texts with an unknown directive are rejected; `__EVAL(<number>)` leaves `(<number>)`; every other generated text
     passes through unchanged (as far as the parser can tell) -/
 def ppModel (t : List Nat) : Option (List Nat) :=
-  if containsSub t (str "#bogus") then none else some (dropSub (str "__EVAL") (t.length + 1) t)
+  if containsSub t (str "#bogus") then none
+  else if t.contains 35 then
+    -- a text with directives goes through the preprocessor model (a fresh macro table per call)
+    match Sqf.Pp.run { files := [], root := str "/$R" } Sqf.Pp.builtins t with
+    | .ok out => some out
+    | .error _ => none
+  else some (dropSub (str "__EVAL") (t.length + 1) t)
 
 def renderInt (i : Int) : List Nat := if i < 0 then [45] ++ natStr i.natAbs else natStr i.toNat
 
@@ -307,8 +313,11 @@ def verbApi (e : Env) (f : List (List Nat)) : List Nat :=
       match cur with
       | none => emit st none (str "rc=-1")
       | some i =>
-        let env : Sqf.Api.Env := { parse := assemble e.real, pp := ppModel, parseCfg := fun _ => none }
-        let ty := (((t[3]?).getD []).headD 0)
+        let ty0 := (((t[3]?).getD []).headD 0)
+        -- type 'a' (assembly text) is exercised with texts the assembly parser rejects only: the call behaves like an
+        -- SQF call whose text the parser rejects (one error-level diagnostic, -3)
+        let env : Sqf.Api.Env := { parse := if ty0 == 97 then (fun _ => none) else assemble e.real, pp := ppModel, parseCfg := fun _ => none }
+        let ty := if ty0 == 97 then 115 else ty0
         let r := Sqf.Api.call env i (natOfBytes ((t[2]?).getD [])) ty (unhexBytes ((t[4]?).getD []))
         emit st (some r.1) (str "rc=" ++ renderInt r.2)
     else if op == str "cfg" then
@@ -365,7 +374,8 @@ def verbCtl (e : Env) (f : List (List Nat)) : List Nat :=
   let layout := match f[2]? with
     | some l => if l.isEmpty then [] else (splitOn 44 l).map natOfBytes
     | none => []
-  let m0 : Sqf.VM.M := { parse := assemble e.real }
+  let limit := natOfBytes ((f[3]?).getD [])
+  let m0 : Sqf.VM.M := { parse := assemble e.real, maxRuntime := limit }
   let r0 : Option Sqf.Ctl.Rt :=
     if text == str "-" then some { m := m0 }
     else match assemble e.real text with
@@ -380,7 +390,12 @@ def verbCtl (e : Env) (f : List (List Nat)) : List Nat :=
         if a == 83 then some .start else if a == 84 then some .stop else if a == 65 then some .abort
         else if a == 97 then some .assemblyStep else if a == 108 then some .lineStep else if a == 118 then some .leaveScope else none
       match act with
-      | none => (acc.1, acc.2 ++ str " ; bad-action")
+      | none =>
+        if a == 87 then
+          -- W: limit + 50 ms of virtual time pass while nothing executes
+          let r' : Sqf.Ctl.Rt := { acc.1 with m := { acc.1.m with now := acc.1.m.now + limit + 50 } }
+          (r', acc.2 ++ str " ; wait:" ++ Sqf.VM.stateName r'.state ++ str ":" ++ ctlPosition layout r')
+        else (acc.1, acc.2 ++ str " ; bad-action")
       | some act =>
         let o := Sqf.Ctl.exec lineOf acc.1 act
         (o.1, acc.2 ++ str " ; " ++ ctlResName o.2 ++ str ":" ++ Sqf.VM.stateName o.1.state ++ str ":" ++ ctlPosition layout o.1))
